@@ -8,7 +8,7 @@
    whatever formats or ignore patterns were used") is proved for flat trees (one history at the root, no renames) with
    ANY number of generations: C03_unchanged_tree_all_exit_0 and C03_flat_cycle below; for nested histories and
    renames the composition is carried by the lockstep correspondence. *)
-From MHL Require Import Model.Commands Gen.Generated Proofs.BaseFacts Proofs.TreeFacts Proofs.VerifyFacts Proofs.FreshFacts Proofs.HistFacts Proofs.FlatFacts Proofs.ReloadFacts Proofs.NestedFacts Proofs.SfNestedFacts Proofs.SfAlteredFacts.
+From MHL Require Import Model.Commands Gen.Generated Proofs.BaseFacts Proofs.TreeFacts Proofs.VerifyFacts Proofs.FreshFacts Proofs.HistFacts Proofs.FlatFacts Proofs.ReloadFacts Proofs.NestedFacts Proofs.SfNestedFacts Proofs.SfAlteredFacts Gen.GeneratedFns Proofs.SourceExitFacts.
 
 Theorem C03_verify_reports_exactly : forall Hb matches C cdig t ipats ifile hs,
   load C cdig t = inl hs -> lh_gens (root_hist hs) <> [] ->
@@ -392,6 +392,26 @@ Theorem C03_create_exit_11_is_never_a_false_alarm : forall Hb matches C cdig ser
     find_first (lh_gens (route_to hs p)) (strip_prefix (lh_root (route_to hs p)) p) f = Some e /\ e_digest e <> digest_text Hb f c.
 Proof. exact create_exit_11_genuine. Qed.
 Print Assumptions C03_create_exit_11_is_never_a_false_alarm.
+(* THE EXIT DECISIONS OF verify AND diff ARE THE SOURCE'S.  translator/gen.py translates, on every run, the tail of
+   commands.verify_entire_folder and of commands.diff_entire_folder_against_full_history_subcommand (`exception =
+   test_for_missing_files(...)`, the conditional re-assignments of `exception` in their order, `if exception: raise
+   exception`; exception classes -> the regenerated exit codes) into src_verify_exit / src_diff_exit (Gen/GeneratedFns.v).
+   On the quantities the model computes -- something recorded is missing and not ignored, a single file was asked for /
+   found, the number of new files, the number of failed comparisons -- they give exactly the exit code of verify_core,
+   which is what `verify` and `diff` are after loading (C03_verify_exit_code, C03_diff_exit_code describe that code). *)
+Theorem C03_exit_decisions_are_the_sources : forall Hb matches C hs is_diff (t : node C) only ip ifl, lh_gens (root_hist hs) <> [] ->
+  let spec := set_patterns (latest_patterns (lh_gens (root_hist hs))) ip (pattern_file_lines ifl) in
+  let evs := events matches C spec [] t in
+  let vs := fold_left (verify_file Hb hs (negb is_diff) only) (ev_files evs) (mkVS [] [] false) in
+  let miss := sorted_paths (missing matches spec (diff_paths (expected_paths hs) (visited evs))) in
+  o_outcome (snd (verify_core Hb matches C hs is_diff t only ip ifl)) =
+  Exit (if is_diff
+        then src_diff_exit (negb (is_nil miss)) false false (length (vs_new vs)) 0
+        else src_verify_exit (negb (is_nil miss)) (match only with Some _ => true | None => false end) (vs_found vs)
+                             (length (vs_new vs)) (length (vs_bad vs))).
+Proof. exact verify_core_exit_is_source. Qed.
+Print Assumptions C03_exit_decisions_are_the_sources.
+
 (* the tie of the two counting rules to the source (regenerated on every run from commands.py by translator/gen.py):
    create -sf counts one failure per sealed file, decided by the first requested format's verdict (Model/Create.v
    seal_file, Model/Commands.v sf_step); create in folder mode counts one per failed format of every sealed file
